@@ -547,16 +547,16 @@ func (g *G) genInst(c *cur) {
 				Weak: g.chance("weak", 1, 3), Volatile: g.chance("vol", 1, 4)}
 			in.Ordering = g.pick("cxs", []string{"monotonic", "acquire", "release", "acq_rel", "seq_cst"})
 			in.Ordering2 = g.pick("cxf", []string{"monotonic", "acquire", "seq_cst"})
-			if g.chance("cxalign", 1, 3) {
-				in.Align = g.atomicAlign(et)
+			if g.chance("cxalign", 1, 3) && !g.off("atomic-align") {
+				in.Align = g.atomicAlign(et) << uint(g.intn("cxalignup", 3))
 			}
 			c.add(in)
 		} else {
 			in := &am.Inst{Op: "atomicrmw", T: et, Args: []*am.Value{p, c.val(et)}, Volatile: g.chance("vol", 1, 4)}
 			in.RMWOp = g.pick("rmw", []string{"xchg", "add", "sub", "and", "nand", "or", "xor", "max", "min", "umax", "umin"})
 			in.Ordering = g.pick("rmwo", []string{"monotonic", "acquire", "release", "acq_rel", "seq_cst"})
-			if g.chance("rmwalign", 1, 3) {
-				in.Align = g.atomicAlign(et)
+			if g.chance("rmwalign", 1, 3) && !g.off("atomic-align") {
+				in.Align = g.atomicAlign(et) << uint(g.intn("rmwalignup", 3))
 			}
 			c.add(in)
 		}
